@@ -46,19 +46,91 @@ def mix (salt : Nat) (sc : List (Option Nat)) (ar : List (List Nat)) (vs : List 
   let r := mixScalars salt sc vs
   mixArrays r.1 ar r.2
 
-/-- `mixK(salt, x, y, read)` of the skipping processor: one entry per wired port, `none` for an
-    input that was not pulled -/
-def mixK (salt : Nat) (_sc : List (Option Nat)) (_ar : List (List Nat)) (vs : List (Option Nat)) : Nat :=
-  match vs with
-  | [some x, some y] => ((salt * 31 + 11 + x) % M * 31 + 11 + y) % M     -- B was pulled
-  | [some x, none] => ((salt * 31 + 11 + x) % M * 31 + 3) % M            -- B was not pulled
-  | _ => 0
+/-! ### the skipping processors of the harness (K, W, N): pull strategy + value function.
+    `deps` = the non-nil ports in order A, B, (C); entries are positional over `deps`. -/
 
-/-- which inputs the skipping processor pulls: A always, B only when A's value is > 0 -/
-def readsK (acc : List (Option Nat)) : Bool :=
-  match acc with
-  | [some x] => decide (x > 0)
-  | _ => true
+/-- is port `j` wired, and if so which entry slot does it have -/
+def slot (sc : List (Option Nat)) (j : Nat) : Option Nat :=
+  match sc[j]? with
+  | some (some _) => some ((sc.take j).filterMap id).length
+  | _ => none
+
+def entry (es : List (Option Nat)) (k : Nat) : Option Nat := es.getD k none
+
+/-- the value entry of port `j` (none: port nil or not pulled) -/
+def portVal (sc : List (Option Nat)) (es : List (Option Nat)) (j : Nat) : Option Nat :=
+  match slot sc j with
+  | some k => entry es k
+  | none => none
+
+/-- first wired port among `js` (in that order) whose entry is still missing -/
+def firstMissing (sc : List (Option Nat)) (es : List (Option Nat)) : List Nat → Option Nat
+  | [] => none
+  | j :: js =>
+    match slot sc j with
+    | some k => if (entry es k).isNone then some k else firstMissing sc es js
+    | none => firstMissing sc es js
+
+/-- K (ports A, B): A nil → reads nothing; x := A; x ≤ 0 → B not read; x > 0 → B read if wired -/
+def nextK (sc : List (Option Nat)) (_ar : List (List Nat)) (es : List (Option Nat)) : Option Nat :=
+  match slot sc 0 with
+  | none => none
+  | some ka =>
+    match entry es ka with
+    | none => some ka
+    | some x => if x > 0 then firstMissing sc es [1] else none
+
+def mixK (salt : Nat) (sc : List (Option Nat)) (_ar : List (List Nat)) (es : List (Option Nat)) : Nat :=
+  match portVal sc es 0 with
+  | none => (salt * 31 + 2) % M
+  | some x =>
+    let h := (salt * 31 + 11 + x) % M
+    if x > 0 then
+      match portVal sc es 1 with
+      | some y => (h * 31 + 11 + y) % M
+      | none => (h * 31 + 7) % M
+    else (h * 31 + 3) % M
+
+/-- W (screw-like, ports A, B, C): B nil → reads nothing; pulls B, then C if wired, then A only if
+    wired and b is odd — A is EARLIER in `Dependencies()` order -/
+def nextW (sc : List (Option Nat)) (_ar : List (List Nat)) (es : List (Option Nat)) : Option Nat :=
+  match slot sc 1 with
+  | none => none
+  | some kb =>
+    match entry es kb with
+    | none => some kb
+    | some b =>
+      match firstMissing sc es [2] with
+      | some kc => some kc
+      | none => if b % 2 == 1 then firstMissing sc es [0] else none
+
+def mixW (salt : Nat) (sc : List (Option Nat)) (_ar : List (List Nat)) (es : List (Option Nat)) : Nat :=
+  match portVal sc es 1 with
+  | none => (salt * 31 + 1) % M
+  | some b =>
+    let h := (salt * 31 + 11 + b) % M
+    let h := match portVal sc es 2 with
+      | some c => (h * 31 + 13 + c) % M
+      | none => (h * 31 + 5) % M
+    match (if b % 2 == 1 then portVal sc es 0 else none) with
+    | some a => (h * 31 + 17 + a) % M
+    | none => (h * 31 + 3) % M
+
+/-- N (nil-port early return, ports A, B, C): A nil → reads nothing although B, C may be wired;
+    otherwise reads A, B, C in order -/
+def nextN (sc : List (Option Nat)) (_ar : List (List Nat)) (es : List (Option Nat)) : Option Nat :=
+  match slot sc 0 with
+  | none => none
+  | some _ => firstMissing sc es [0, 1, 2]
+
+def mixN (salt : Nat) (sc : List (Option Nat)) (_ar : List (List Nat)) (es : List (Option Nat)) : Nat :=
+  match portVal sc es 0 with
+  | none => (salt * 31 + 2) % M
+  | some a =>
+    let h := (salt * 31 + 11 + a) % M
+    [1, 2].foldl (fun h j => match portVal sc es j with
+      | some x => (h * 31 + 11 + x) % M
+      | none => (h * 31 + 7) % M) h
 
 /-! ### composite parameter values (`parameter.Value[[]int]`, `[struct{A,B int}]`, `[map[string]int]`):
     the model keeps the canonical code `enc` of the value, the harness prints `enc(param.Value())` -/
@@ -138,7 +210,17 @@ def pNode : P (Node Nat) := do
     -- the skipping processor of the harness (c11K): reads A, and reads B only when A's value is > 0
     let salt ← pNat
     let w ← pWiring
-    pure (.struct { fn := mixK salt, reads := readsK, scalars := w.1, arrays := w.2, cache := 0, version := 0,
+    pure (.struct { fn := mixK salt, next := nextK, scalars := w.1, arrays := w.2, cache := 0, version := 0,
+                    remembered := none, flag := false })
+  else if t == "W" then
+    let salt ← pNat
+    let w ← pWiring
+    pure (.struct { fn := mixW salt, next := nextW, scalars := w.1, arrays := w.2, cache := 0, version := 0,
+                    remembered := none, flag := false })
+  else if t == "N" then
+    let salt ← pNat
+    let w ← pWiring
+    pure (.struct { fn := mixN salt, next := nextN, scalars := w.1, arrays := w.2, cache := 0, version := 0,
                     remembered := none, flag := false })
   else failure
 
@@ -171,7 +253,7 @@ def pCase : P Case := do
   let ns ← pList pNode
   let after ← get
   let ops ← pList pOp
-  pure { nodes := ns.toArray, ops := ops, hasK := (before.take (before.length - after.length)).contains "K" }
+  pure { nodes := ns.toArray, ops := ops, hasK := (before.take (before.length - after.length)).any (fun t => t == "K" || t == "W" || t == "N") }
 
 /-- one observation block of the implementation's answer -/
 structure Block where
